@@ -91,7 +91,24 @@ func init() {
 				return true
 			})
 			if found == nil {
-				return nil, fmt.Errorf("%s: no composite literal assigned to %s", fn, varName)
+				// round 6: the local may have been renamed - the ONLY []uint16{...} literal assigned to a variable in the function
+				var lits []ast.Expr
+				ast.Inspect(f, func(n ast.Node) bool {
+					as, ok := n.(*ast.AssignStmt)
+					if !ok || len(as.Lhs) != 1 || len(as.Rhs) != 1 {
+						return true
+					}
+					if cl, ok := as.Rhs[0].(*ast.CompositeLit); ok {
+						if at, ok := cl.Type.(*ast.ArrayType); ok && at.Len == nil && isIdent(at.Elt, "uint16") {
+							lits = append(lits, cl)
+						}
+					}
+					return true
+				})
+				if len(lits) != 1 {
+					return nil, fmt.Errorf("%s: no composite literal assigned to %s (and %d []uint16 literals assigned to other names)", fn, varName, len(lits))
+				}
+				found = lits[0]
 			}
 			return p.IntList(found)
 		}
@@ -168,10 +185,15 @@ func isIdent(e ast.Expr, name string) bool {
 	return ok && id.Name == name
 }
 
-// msg.(*T) -> T
-func msgAssert(e ast.Expr) (string, bool) {
+// msg.(*T) -> T.  The variable need not be called msg: an assertion of ANY identifier to a pointer to one of the message structs
+// that readHandshake allocates is a read (round 6: a renamed local must not change the table); the name msg with another
+// struct is still reported (read() refuses it).
+func (w *hsWalker) msgAssert(e ast.Expr) (string, bool) {
 	ta, ok := e.(*ast.TypeAssertExpr)
-	if !ok || !isIdent(ta.X, "msg") {
+	if !ok {
+		return "", false
+	}
+	if _, ok := ta.X.(*ast.Ident); !ok {
 		return "", false
 	}
 	st, ok := ta.Type.(*ast.StarExpr)
@@ -182,7 +204,20 @@ func msgAssert(e ast.Expr) (string, bool) {
 	if !ok {
 		return "", false
 	}
+	if _, known := w.structTy[id.Name]; !known && !isIdent(ta.X, "msg") {
+		return "", false
+	}
 	return id.Name, true
+}
+
+// the name of the boolean of "x, ok := msg.(*T)" ("ok" when the statement has another form)
+func okName(as *ast.AssignStmt) string {
+	if len(as.Lhs) == 2 {
+		if id, ok := as.Lhs[1].(*ast.Ident); ok && id.Name != "_" {
+			return id.Name
+		}
+	}
+	return "ok"
 }
 
 // the alert constant of the first sendAlert(...) call in a block, 0 if none
@@ -204,13 +239,13 @@ func (w *hsWalker) alertIn(b *ast.BlockStmt) int64 {
 	return res
 }
 
-// "!ok" or "!ok || <more reasons to refuse>"
-func isNotOk(e ast.Expr) bool {
+// "!ok" or "!ok || <more reasons to refuse>" (okv = the name the assertion gave its boolean)
+func isNotOk(e ast.Expr, okv string) bool {
 	if b, ok := e.(*ast.BinaryExpr); ok && b.Op.String() == "||" {
-		return isNotOk(b.X)
+		return isNotOk(b.X, okv)
 	}
 	u, ok := e.(*ast.UnaryExpr)
-	return ok && u.Op.String() == "!" && isIdent(u.X, "ok")
+	return ok && u.Op.String() == "!" && isIdent(u.X, okv)
 }
 
 func isReturnNilBlock(b *ast.BlockStmt) bool {
@@ -222,7 +257,7 @@ func isReturnNilBlock(b *ast.BlockStmt) bool {
 }
 
 // record a read of struct T; next = the statement following the assertion (or the if statement carrying it)
-func (w *hsWalker) read(name string, cond ast.Expr, body *ast.BlockStmt, early bool) {
+func (w *hsWalker) read(name, okv string, cond ast.Expr, body *ast.BlockStmt, early bool) {
 	t, ok := w.structTy[name]
 	if !ok {
 		w.fail("type assertion to %s: not a struct of readHandshake's switch", name)
@@ -230,12 +265,12 @@ func (w *hsWalker) read(name string, cond ast.Expr, body *ast.BlockStmt, early b
 	}
 	r := hsRead{typ: t}
 	switch {
-	case cond != nil && isNotOk(cond):
+	case cond != nil && isNotOk(cond, okv):
 		r.alert = w.alertIn(body)
 		if r.alert == 0 {
 			w.fail("mismatch branch of msg.(*%s) sends no alert", name)
 		}
-	case cond != nil && isIdent(cond, "ok"):
+	case cond != nil && isIdent(cond, okv):
 		r.optional = true
 	default:
 		w.fail("msg.(*%s): not followed by a test of ok", name)
@@ -252,7 +287,7 @@ func (w *hsWalker) block(stmts []ast.Stmt) {
 		switch s := stmts[i].(type) {
 		case *ast.AssignStmt:
 			if len(s.Rhs) == 1 {
-				if name, ok := msgAssert(s.Rhs[0]); ok {
+				if name, ok := w.msgAssert(s.Rhs[0]); ok {
 					// x, ok := msg.(*T) followed by "if !ok {" or "if ok {"
 					var cond ast.Expr
 					var body *ast.BlockStmt
@@ -261,7 +296,7 @@ func (w *hsWalker) block(stmts []ast.Stmt) {
 							cond, body = nx.Cond, nx.Body
 						}
 					}
-					w.read(name, cond, body, early)
+					w.read(name, okName(s), cond, body, early)
 					continue
 				}
 			}
@@ -269,8 +304,8 @@ func (w *hsWalker) block(stmts []ast.Stmt) {
 		case *ast.IfStmt:
 			if s.Init != nil {
 				if as, ok := s.Init.(*ast.AssignStmt); ok && len(as.Rhs) == 1 {
-					if name, ok := msgAssert(as.Rhs[0]); ok {
-						w.read(name, s.Cond, s.Body, early)
+					if name, ok := w.msgAssert(as.Rhs[0]); ok {
+						w.read(name, okName(as), s.Cond, s.Body, early)
 						continue
 					}
 				}
@@ -320,7 +355,7 @@ func (w *hsWalker) expr(n ast.Node) {
 			return false
 		}
 		if name, ok := n.(ast.Expr); ok {
-			if t, ok := msgAssert(name); ok {
+			if t, ok := w.msgAssert(name); ok {
 				w.fail("msg.(*%s) in an unrecognised position", t)
 				return false
 			}
@@ -350,6 +385,19 @@ func (w *hsWalker) inline(f *ast.FuncDecl) {
 	}
 	// the reads of the callee at the caller's nesting depth; "early return" is local to the callee
 	w.block(f.Body.List)
+}
+
+// "<identifier>[0]" (data[0] today; the name of the local is not part of the tie)
+func isFirstByteOf(p *Pkg, e ast.Expr) bool {
+	ix, ok := e.(*ast.IndexExpr)
+	if !ok {
+		return false
+	}
+	if _, ok := ix.X.(*ast.Ident); !ok {
+		return false
+	}
+	z, err := p.Eval(ix.Index)
+	return err == nil && z.Sign() == 0
 }
 
 func hsRows(rs []hsRead) [][]*big.Int {
@@ -407,7 +455,7 @@ func hsFlights(c *Ctx, v *VFile) error {
 	var sw *ast.SwitchStmt
 	ast.Inspect(rh, func(n ast.Node) bool {
 		if s, ok := n.(*ast.SwitchStmt); ok && sw == nil {
-			if ix, ok := s.Tag.(*ast.IndexExpr); ok && isIdent(ix.X, "data") {
+			if isFirstByteOf(p, s.Tag) {
 				sw = s
 			}
 		}
@@ -486,7 +534,7 @@ func hsFlights(c *Ctx, v *VFile) error {
 		}
 		ast.Inspect(cl, func(m ast.Node) bool {
 			if s, ok := m.(*ast.SwitchStmt); ok && !found {
-				if ix, ok := s.Tag.(*ast.IndexExpr); ok && isIdent(ix.X, "data") {
+				if isFirstByteOf(p, s.Tag) {
 					found = true
 					for _, cc := range s.Body.List {
 						for _, e := range cc.(*ast.CaseClause).List {
@@ -552,9 +600,41 @@ func hsFlights(c *Ctx, v *VFile) error {
 
 	// ---- every test of Config.ClientAuth ---------------------------------------------------------------
 	v.Raw("\n(* every test of Config.ClientAuth in source order: rows [op; constant], op 0 ==, 1 >=, 2 switch case *)\n")
+	// X.ClientAuth, or (round 6) a local that is assigned X.ClientAuth once and nothing else ("auth := c.config.ClientAuth")
+	var authAlias map[string]bool
 	isClientAuth := func(e ast.Expr) bool {
+		if id, ok := e.(*ast.Ident); ok && authAlias[id.Name] {
+			return true
+		}
 		s, ok := e.(*ast.SelectorExpr)
 		return ok && s.Sel.Name == "ClientAuth"
+	}
+	clientAuthAliases := func(f *ast.FuncDecl) map[string]bool {
+		assigned := map[string]int{}
+		alias := map[string]bool{}
+		ast.Inspect(f, func(n ast.Node) bool {
+			if as, ok := n.(*ast.AssignStmt); ok {
+				for i, l := range as.Lhs {
+					id, ok := l.(*ast.Ident)
+					if !ok || id.Name == "_" {
+						continue
+					}
+					assigned[id.Name]++
+					if len(as.Lhs) == len(as.Rhs) {
+						if s, ok := as.Rhs[i].(*ast.SelectorExpr); ok && s.Sel.Name == "ClientAuth" && as.Tok.String() == ":=" {
+							alias[id.Name] = true
+						}
+					}
+				}
+			}
+			return true
+		})
+		for n := range alias {
+			if assigned[n] != 1 {
+				delete(alias, n)
+			}
+		}
+		return alias
 	}
 	for _, srv := range []struct{ name, recv string }{{"tls", "serverHandshakeState"}, {"gm", "serverHandshakeStateGM"}} {
 		for _, fn := range []string{"checkForResumption", "doFullHandshake", "processCertsFromClient"} {
@@ -564,6 +644,7 @@ func hsFlights(c *Ctx, v *VFile) error {
 			}
 			var rows [][]*big.Int
 			var ferr error
+			authAlias = clientAuthAliases(f)
 			ast.Inspect(f, func(n ast.Node) bool {
 				switch e := n.(type) {
 				case *ast.BinaryExpr:
@@ -616,6 +697,26 @@ func hsFlights(c *Ctx, v *VFile) error {
 		if !ok {
 			return fmt.Errorf("function %s.processCertsFromClient not found", srv.recv)
 		}
+		// round 6: the two locals are identified by their ROLE, not by name: certsName = what is stored in c.peerCertificates
+		// ("certs" today), pubName = the first result of the function's final return ("pub" today)
+		certsName, pubName := "certs", "pub"
+		ast.Inspect(f, func(nd ast.Node) bool {
+			if as, ok := nd.(*ast.AssignStmt); ok && len(as.Lhs) == 1 && len(as.Rhs) == 1 && as.Tok.String() == "=" {
+				if sel, ok := as.Lhs[0].(*ast.SelectorExpr); ok && sel.Sel.Name == "peerCertificates" {
+					if id, ok := as.Rhs[0].(*ast.Ident); ok {
+						certsName = id.Name
+					}
+				}
+			}
+			return true
+		})
+		if len(f.Body.List) > 0 {
+			if r, ok := f.Body.List[len(f.Body.List)-1].(*ast.ReturnStmt); ok && len(r.Results) == 2 && isIdent(r.Results[1], "nil") {
+				if id, ok := r.Results[0].(*ast.Ident); ok {
+					pubName = id.Name
+				}
+			}
+		}
 		var idx *big.Int
 		n := 0
 		for _, st := range f.Body.List {
@@ -636,7 +737,7 @@ func hsFlights(c *Ctx, v *VFile) error {
 				continue
 			}
 			ix, ok := sel.X.(*ast.IndexExpr)
-			if !ok || !isIdent(ix.X, "certs") {
+			if !ok || !isIdent(ix.X, certsName) {
 				continue
 			}
 			x, err := p.Eval(ix.Index)
@@ -651,7 +752,7 @@ func hsFlights(c *Ctx, v *VFile) error {
 		ast.Inspect(f, func(nd ast.Node) bool {
 			if as, ok := nd.(*ast.AssignStmt); ok {
 				for _, l := range as.Lhs {
-					if isIdent(l, "pub") {
+					if isIdent(l, pubName) {
 						assigns++
 					}
 				}
@@ -665,7 +766,7 @@ func hsFlights(c *Ctx, v *VFile) error {
 				ast.Inspect(lp.Body, func(m ast.Node) bool {
 					if as, ok := m.(*ast.AssignStmt); ok {
 						for _, l := range as.Lhs {
-							if isIdent(l, "pub") {
+							if isIdent(l, pubName) {
 								loops++
 							}
 						}
@@ -682,9 +783,16 @@ func hsFlights(c *Ctx, v *VFile) error {
 	}
 
 	// ---- the search for null compression in the ClientHello, in every server's hello processing ------------------
-	// accepted shape: "for _, compression := range X.compressionMethods { if compression == compressionNone { ... } }" and no
-	// other use of compressionMethods (no len(...), no index) in the function; emitted: 1 per function
-	v.Raw("\n(* null compression is SEARCHED in the ClientHello's list (a loop over compressionMethods comparing with compressionNone,\n   no other use of the list) in: serverHandshakeStateGM.readClientHello, serverHandshakeState.readClientHello,\n   processClientHelloGM, processClientHello *)\n")
+	// accepted shapes (the list X.compressionMethods is used exactly ONCE in the function, no len(...), no index):
+	//  (A) in the body: "for _, compression := range X.compressionMethods { if compression == compressionNone { ... } }"
+	//  (B) one level of helper: the list is the only argument of a call of a package-level function H of this package whose
+	//      body is EXACTLY a search loop over its parameter returning whether compressionNone was found (nullSearchHelper),
+	//      and the caller, unconditionally (a statement of the function body), refuses the hello when H returns false:
+	//      "if !H(X.compressionMethods) { ...; return ..., <non-nil error> }" or "f := H(X.compressionMethods)" directly
+	//      followed by "if !f { ...; return ..., <non-nil error> }".  An inverted test, a helper that answers anything but
+	//      "compressionNone is in the list", a helper reached through a second call, a method or a closure: refused.
+	// emitted: 1 per function
+	v.Raw("\n(* null compression is SEARCHED in the ClientHello's list (a loop over compressionMethods comparing with compressionNone,\n   in the function body or in a package-level helper whose body is exactly that loop and whose negated result guards the refusal;\n   no other use of the list) in: serverHandshakeStateGM.readClientHello, serverHandshakeState.readClientHello,\n   processClientHelloGM, processClientHello *)\n")
 	var searches []*big.Int
 	for _, fn := range []string{"serverHandshakeStateGM.readClientHello", "serverHandshakeState.readClientHello", "processClientHelloGM", "processClientHello"} {
 		f, ok := p.Funcs[fn]
@@ -720,6 +828,16 @@ func hsFlights(c *Ctx, v *VFile) error {
 			}
 			return true
 		})
+		if loops == 0 && uses == 1 {
+			// (B) follow one level of helper call
+			helper, herr := nullSearchViaHelper(p, f, isCM)
+			if herr != nil {
+				return fmt.Errorf("%s: null compression is not found by one loop over compressionMethods: %v", fn, herr)
+			}
+			fmt.Printf("gen: %s: null compression searched through helper %s\n", fn, helper)
+			searches = append(searches, big.NewInt(1))
+			continue
+		}
 		if loops != 1 || uses != 1 {
 			return fmt.Errorf("%s: null compression is not found by one loop over compressionMethods (loops %d, uses of the list %d)", fn, loops, uses)
 		}
@@ -727,6 +845,309 @@ func hsFlights(c *Ctx, v *VFile) error {
 	}
 	v.NList("gen_null_compression_searched", searches)
 	return nil
+}
+
+// the parameter names of a function in order ("a, b T" counts twice; unnamed parameters give "")
+func paramNames(f *ast.FuncDecl) []string {
+	var out []string
+	if f.Type.Params == nil {
+		return out
+	}
+	for _, fl := range f.Type.Params.List {
+		if len(fl.Names) == 0 {
+			out = append(out, "")
+		}
+		for _, n := range fl.Names {
+			out = append(out, n.Name)
+		}
+	}
+	return out
+}
+
+// "switch x.(type)" / "switch v := x.(type)" with x the identifier name
+func typeSwitchOver(ts *ast.TypeSwitchStmt, name string) bool {
+	var e ast.Expr
+	switch a := ts.Assign.(type) {
+	case *ast.ExprStmt:
+		e = a.X
+	case *ast.AssignStmt:
+		if len(a.Rhs) == 1 {
+			e = a.Rhs[0]
+		}
+	}
+	ta, ok := e.(*ast.TypeAssertExpr)
+	return ok && ta.Type == nil && isIdent(ta.X, name)
+}
+
+// ---------------------------------------------------------------------------------------------
+// following ONE level of same-package helper for the null-compression search
+
+// "v == compressionNone" or "compressionNone == v"
+func eqCompNone(e ast.Expr, v string) bool {
+	e = unparen(e)
+	b, ok := e.(*ast.BinaryExpr)
+	if !ok || b.Op.String() != "==" {
+		return false
+	}
+	x, y := unparen(b.X), unparen(b.Y)
+	return (isIdent(x, v) && isIdent(y, "compressionNone")) || (isIdent(y, v) && isIdent(x, "compressionNone"))
+}
+
+func unparen(e ast.Expr) ast.Expr {
+	for {
+		p, ok := e.(*ast.ParenExpr)
+		if !ok {
+			return e
+		}
+		e = p.X
+	}
+}
+
+// is the declaration of h EXACTLY a search for compressionNone in its only parameter?  Accepted bodies (param P, any local names):
+//
+//	for _, v := range P { if v == compressionNone { return true } }; return false
+//	f := false; for _, v := range P { if v == compressionNone { f = true; break } }; return f      (also "var f bool" / "var f = false";
+//	                                                                                               the break may be absent)
+//
+// signature: no receiver, no type parameters, one parameter of type []uint8 / []byte, one unnamed result of type bool.
+func nullSearchHelper(h *ast.FuncDecl) error {
+	if h.Recv != nil || h.Body == nil {
+		return fmt.Errorf("%s is a method or has no body", h.Name.Name)
+	}
+	t := h.Type
+	if t.TypeParams != nil || t.Params == nil || len(t.Params.List) != 1 || len(t.Params.List[0].Names) != 1 ||
+		t.Results == nil || len(t.Results.List) != 1 || len(t.Results.List[0].Names) != 0 || !isIdent(t.Results.List[0].Type, "bool") {
+		return fmt.Errorf("%s: signature is not func([]uint8) bool", h.Name.Name)
+	}
+	at, ok := t.Params.List[0].Type.(*ast.ArrayType)
+	if !ok || at.Len != nil || !(isIdent(at.Elt, "uint8") || isIdent(at.Elt, "byte")) {
+		return fmt.Errorf("%s: parameter is not a []uint8", h.Name.Name)
+	}
+	param := t.Params.List[0].Names[0].Name
+	if param == "_" || param == "compressionNone" || param == "true" || param == "false" {
+		return fmt.Errorf("%s: unusable parameter name", h.Name.Name)
+	}
+	bad := fmt.Errorf("%s: body is not exactly a search loop for compressionNone over %s", h.Name.Name, param)
+	// the loop "for _, v := range P { if v == compressionNone { <hit> } }"; returns the statements of <hit>
+	loopHit := func(s ast.Stmt) ([]ast.Stmt, bool) {
+		r, ok := s.(*ast.RangeStmt)
+		if !ok || !isIdent(r.X, param) || r.Tok.String() != ":=" || r.Value == nil {
+			return nil, false
+		}
+		if r.Key != nil && !isIdent(r.Key, "_") {
+			return nil, false
+		}
+		v, ok := r.Value.(*ast.Ident)
+		if !ok || v.Name == "_" || v.Name == "compressionNone" || v.Name == param {
+			return nil, false
+		}
+		if len(r.Body.List) != 1 {
+			return nil, false
+		}
+		i, ok := r.Body.List[0].(*ast.IfStmt)
+		if !ok || i.Init != nil || i.Else != nil || !eqCompNone(i.Cond, v.Name) {
+			return nil, false
+		}
+		return i.Body.List, true
+	}
+	retIs := func(s ast.Stmt, name string) bool {
+		r, ok := s.(*ast.ReturnStmt)
+		return ok && len(r.Results) == 1 && isIdent(unparen(r.Results[0]), name)
+	}
+	b := h.Body.List
+	switch len(b) {
+	case 2: // for ... { if ... { return true } }; return false
+		hit, ok := loopHit(b[0])
+		if !ok || len(hit) != 1 || !retIs(hit[0], "true") || !retIs(b[1], "false") {
+			return bad
+		}
+		return nil
+	case 3: // f := false; for ... { if ... { f = true; break } }; return f
+		flag := ""
+		switch d := b[0].(type) {
+		case *ast.AssignStmt:
+			if d.Tok.String() == ":=" && len(d.Lhs) == 1 && len(d.Rhs) == 1 && isIdent(d.Rhs[0], "false") {
+				if id, ok := d.Lhs[0].(*ast.Ident); ok {
+					flag = id.Name
+				}
+			}
+		case *ast.DeclStmt:
+			if gd, ok := d.Decl.(*ast.GenDecl); ok && gd.Tok.String() == "var" && len(gd.Specs) == 1 {
+				if vs, ok := gd.Specs[0].(*ast.ValueSpec); ok && len(vs.Names) == 1 {
+					zero := len(vs.Values) == 0 && isIdent(vs.Type, "bool")
+					lit := len(vs.Values) == 1 && isIdent(vs.Values[0], "false") && (vs.Type == nil || isIdent(vs.Type, "bool"))
+					if zero || lit {
+						flag = vs.Names[0].Name
+					}
+				}
+			}
+		}
+		if flag == "" || flag == "_" || flag == param || flag == "true" || flag == "false" || flag == "compressionNone" {
+			return bad
+		}
+		hit, ok := loopHit(b[1])
+		if !ok || len(hit) < 1 || len(hit) > 2 {
+			return bad
+		}
+		// the loop variable must not shadow the flag
+		if r := b[1].(*ast.RangeStmt); isIdent(r.Value, flag) {
+			return bad
+		}
+		as, ok := hit[0].(*ast.AssignStmt)
+		if !ok || as.Tok.String() != "=" || len(as.Lhs) != 1 || len(as.Rhs) != 1 || !isIdent(as.Lhs[0], flag) || !isIdent(as.Rhs[0], "true") {
+			return bad
+		}
+		if len(hit) == 2 {
+			br, ok := hit[1].(*ast.BranchStmt)
+			if !ok || br.Tok.String() != "break" || br.Label != nil {
+				return bad
+			}
+		}
+		if !retIs(b[2], flag) {
+			return bad
+		}
+		return nil
+	}
+	return bad
+}
+
+// a block that refuses the hello: its last statement returns a last result that is not the literal nil
+func refusesHello(b *ast.BlockStmt) bool {
+	if b == nil || len(b.List) == 0 {
+		return false
+	}
+	r, ok := b.List[len(b.List)-1].(*ast.ReturnStmt)
+	if !ok || len(r.Results) == 0 {
+		return false
+	}
+	return !isIdent(unparen(r.Results[len(r.Results)-1]), "nil")
+}
+
+// f uses X.compressionMethods once and not in a loop of its own: accept "H(X.compressionMethods)" for a helper H as described at
+// the call site of this function (hsFlights), with the polarity of the test checked.  Returns H's name.
+func nullSearchViaHelper(p *Pkg, f *ast.FuncDecl, isCM func(ast.Expr) bool) (string, error) {
+	if f.Body == nil {
+		return "", fmt.Errorf("no body")
+	}
+	// the call H(X.compressionMethods): H a plain identifier naming a package-level function, not shadowed by a parameter/local
+	helperCall := func(e ast.Expr) (string, bool) {
+		c, ok := unparen(e).(*ast.CallExpr)
+		if !ok || len(c.Args) != 1 || !isCM(c.Args[0]) || c.Ellipsis.IsValid() {
+			return "", false
+		}
+		id, ok := c.Fun.(*ast.Ident)
+		if !ok {
+			return "", false
+		}
+		return id.Name, true
+	}
+	notOf := func(e ast.Expr) (ast.Expr, bool) {
+		u, ok := unparen(e).(*ast.UnaryExpr)
+		if !ok || u.Op.String() != "!" {
+			return nil, false
+		}
+		return unparen(u.X), true
+	}
+	name := ""
+	stmts := f.Body.List
+	for i, st := range stmts {
+		switch s := st.(type) {
+		case *ast.IfStmt:
+			// if !H(X.compressionMethods) { refuse }
+			if s.Init != nil {
+				continue
+			}
+			if x, ok := notOf(s.Cond); ok {
+				if h, ok := helperCall(x); ok {
+					if !refusesHello(s.Body) {
+						return "", fmt.Errorf("the branch taken when %s(...) is false does not return an error", h)
+					}
+					name = h
+				}
+			}
+		case *ast.AssignStmt:
+			// found := H(X.compressionMethods); if !found { refuse }
+			if len(s.Lhs) != 1 || len(s.Rhs) != 1 || s.Tok.String() != ":=" {
+				continue
+			}
+			h, ok := helperCall(s.Rhs[0])
+			if !ok {
+				continue
+			}
+			fl, ok := s.Lhs[0].(*ast.Ident)
+			if !ok || fl.Name == "_" || i+1 >= len(stmts) {
+				return "", fmt.Errorf("the result of %s(...) is not tested by the next statement", h)
+			}
+			nx, ok := stmts[i+1].(*ast.IfStmt)
+			if !ok || nx.Init != nil {
+				return "", fmt.Errorf("the result of %s(...) is not tested by the next statement", h)
+			}
+			x, ok := notOf(nx.Cond)
+			if !ok || !isIdent(x, fl.Name) || !refusesHello(nx.Body) {
+				return "", fmt.Errorf("the statement after %s := %s(...) is not \"if !%s { ...; return <error> }\"", fl.Name, h, fl.Name)
+			}
+			// the flag is used nowhere else (it cannot be overwritten or consulted with the other polarity later)
+			n := 0
+			ast.Inspect(f.Body, func(nd ast.Node) bool {
+				if id, ok := nd.(*ast.Ident); ok && id.Name == fl.Name {
+					n++
+				}
+				return true
+			})
+			if n != 2 {
+				return "", fmt.Errorf("the result %s of %s(...) is used in %d places, wanted: only the test that follows", fl.Name, h, n-1)
+			}
+			name = h
+		}
+		if name != "" {
+			break
+		}
+	}
+	if name == "" {
+		return "", fmt.Errorf("the list is neither searched by a loop in the function body nor passed, by a statement of the function body, to a helper whose negated result guards the refusal (\"if !H(X.compressionMethods) { ...; return <error> }\")")
+	}
+	// H must be a package-level function of the parsed handshake sources and not shadowed inside f
+	shadowed := false
+	ast.Inspect(f, func(nd ast.Node) bool {
+		switch d := nd.(type) {
+		case *ast.AssignStmt:
+			if d.Tok.String() == ":=" {
+				for _, l := range d.Lhs {
+					if isIdent(l, name) {
+						shadowed = true
+					}
+				}
+			}
+		case *ast.ValueSpec:
+			for _, id := range d.Names {
+				if id.Name == name {
+					shadowed = true
+				}
+			}
+		case *ast.Field:
+			for _, id := range d.Names {
+				if id.Name == name {
+					shadowed = true
+				}
+			}
+		case *ast.RangeStmt:
+			if isIdent(d.Key, name) || isIdent(d.Value, name) {
+				shadowed = true
+			}
+		}
+		return true
+	})
+	if shadowed {
+		return "", fmt.Errorf("%s is a local name in the function", name)
+	}
+	h, ok := p.Funcs[name]
+	if !ok {
+		return "", fmt.Errorf("%s is not a package-level function of the parsed handshake sources", name)
+	}
+	if err := nullSearchHelper(h); err != nil {
+		return "", err
+	}
+	return name, nil
 }
 
 // ---------------------------------------------------------------------------------------------
@@ -860,6 +1281,12 @@ func init() {
 		if !ok {
 			return fmt.Errorf("pickSignatureAlgorithm not found")
 		}
+		// round 6: the parameters are identified by POSITION (pubkey, peerSigAlgs, ourSigAlgs, tlsVersion), not by name
+		pickPar := paramNames(pick)
+		if len(pickPar) != 4 {
+			return fmt.Errorf("pickSignatureAlgorithm: %d parameters, wanted 4 (pubkey, peerSigAlgs, ourSigAlgs, tlsVersion)", len(pickPar))
+		}
+		pkName, peerName, versName := pickPar[0], pickPar[1], pickPar[3]
 		// the first statement: if tlsVersion < VersionTLS12 || len(peerSigAlgs) == 0 { switch pubkey.(type) {...} }
 		first, ok := pick.Body.List[0].(*ast.IfStmt)
 		if !ok {
@@ -867,12 +1294,15 @@ func init() {
 		}
 		guardOK := false
 		if b, ok := first.Cond.(*ast.BinaryExpr); ok && b.Op.String() == "||" {
-			l, lok := b.X.(*ast.BinaryExpr)
-			r, rok := b.Y.(*ast.BinaryExpr)
-			if lok && rok && l.Op.String() == "<" && isIdent(l.X, "tlsVersion") && isIdent(l.Y, "VersionTLS12") && r.Op.String() == "==" {
-				if call, ok := r.X.(*ast.CallExpr); ok && isIdent(call.Fun, "len") && len(call.Args) == 1 && isIdent(call.Args[0], "peerSigAlgs") {
-					if z, err := p.Eval(r.Y); err == nil && z.Sign() == 0 {
-						guardOK = true
+			// the two disjuncts in either order (they have no side effects)
+			for _, pr := range [][2]ast.Expr{{b.X, b.Y}, {b.Y, b.X}} {
+				l, lok := unparen(pr[0]).(*ast.BinaryExpr)
+				r, rok := unparen(pr[1]).(*ast.BinaryExpr)
+				if lok && rok && l.Op.String() == "<" && isIdent(l.X, versName) && isIdent(l.Y, "VersionTLS12") && r.Op.String() == "==" {
+					if call, ok := r.X.(*ast.CallExpr); ok && isIdent(call.Fun, "len") && len(call.Args) == 1 && isIdent(call.Args[0], peerName) {
+						if z, err := p.Eval(r.Y); err == nil && z.Sign() == 0 {
+							guardOK = true
+						}
 					}
 				}
 			}
@@ -888,6 +1318,9 @@ func init() {
 				ts, ok := n.(*ast.TypeSwitchStmt)
 				if !ok || found {
 					return true
+				}
+				if !typeSwitchOver(ts, pkName) {
+					ferr = fmt.Errorf("pickSignatureAlgorithm: a type switch that is not over the public key parameter %s", pkName)
 				}
 				found = true
 				for _, cc := range ts.Body.List {
@@ -930,12 +1363,24 @@ func init() {
 				loop = r
 			}
 		}
-		if loop == nil || !isIdent(loop.X, "peerSigAlgs") {
+		if loop == nil || !isIdent(loop.X, peerName) {
 			return fmt.Errorf("pickSignatureAlgorithm: the loop over peerSigAlgs was not found")
+		}
+		// the local that holds signatureFromSignatureScheme(<loop variable>) ("sigType" today)
+		sigTypeName := "sigType"
+		for _, st := range loop.Body.List {
+			if as, ok := st.(*ast.AssignStmt); ok && len(as.Lhs) == 1 && len(as.Rhs) == 1 {
+				if call, ok := as.Rhs[0].(*ast.CallExpr); ok && isIdent(call.Fun, "signatureFromSignatureScheme") && len(call.Args) == 1 &&
+					loop.Value != nil && isIdent(call.Args[0], loop.Value.(*ast.Ident).Name) {
+					if id, ok := as.Lhs[0].(*ast.Ident); ok {
+						sigTypeName = id.Name
+					}
+				}
+			}
 		}
 		typeSwitchRows(loop.Body, func(kind int64, cl *ast.CaseClause) {
 			ast.Inspect(cl, func(n ast.Node) bool {
-				if b, ok := n.(*ast.BinaryExpr); ok && b.Op.String() == "==" && isIdent(b.X, "sigType") {
+				if b, ok := n.(*ast.BinaryExpr); ok && b.Op.String() == "==" && isIdent(b.X, sigTypeName) {
 					if x, err := p.Eval(b.Y); err == nil {
 						compat = append(compat, []*big.Int{big.NewInt(kind), x})
 					} else {
@@ -957,9 +1402,13 @@ func init() {
 			return fmt.Errorf("verifyHandshakeSignature not found")
 		}
 		var vrows [][]*big.Int
+		vfPar := paramNames(vf)
+		if len(vfPar) < 2 {
+			return fmt.Errorf("verifyHandshakeSignature: fewer than 2 parameters")
+		}
 		ast.Inspect(vf, func(n ast.Node) bool {
 			sw, ok := n.(*ast.SwitchStmt)
-			if !ok || !isIdent(sw.Tag, "sigType") {
+			if !ok || !isIdent(sw.Tag, vfPar[0]) {
 				return true
 			}
 			for _, cc := range sw.Body.List {
@@ -969,7 +1418,7 @@ func init() {
 				}
 				kind := int64(-1)
 				ast.Inspect(cl, func(m ast.Node) bool {
-					if ta, ok := m.(*ast.TypeAssertExpr); ok && isIdent(ta.X, "pubkey") && kind < 0 {
+					if ta, ok := m.(*ast.TypeAssertExpr); ok && isIdent(ta.X, vfPar[1]) && kind < 0 {
 						if k, ok := kindOf(ta.Type); ok {
 							kind = k
 						}
